@@ -1,6 +1,7 @@
 package main
 
 import (
+	"strconv"
 	"bytes"
 	"fmt"
 	"go/scanner"
@@ -588,7 +589,11 @@ func c20CaseHeaders(r *mon.Run) {
 				r.Violate("append-leaks-to-other-handle", c, "case header #%d: clone %d of one original, given a Block of its own, renders\n%s\nwant (a clone of an original of its own)\n%s", hi, i, got, want[i])
 			}
 		}
+		untouched := orig.Clone() // never appended to: it renders like its original, whatever the original becomes
 		orig.Block(jen.Id("origq").Call())
+		if got := inSwitch(untouched); got != wantOrig {
+			r.Violate("clone-not-equal-original", c, "case header #%d: an unmodified clone taken before the original got its Block renders\n%s\nbut the original renders\n%s", hi, got, wantOrig)
+		}
 		if got := inSwitch(orig); got != wantOrig {
 			r.Violate("clone-corruption", c, "case header #%d: the original, given its Block after three clones were extended and rendered, renders\n%s\nwant\n%s", hi, got, wantOrig)
 		}
@@ -602,12 +607,44 @@ func c20CaseHeaders(r *mon.Run) {
 	}
 }
 
+// c20DeepChain: depth, not width — a sum built as s = s.Clone().Op("+").Lit(i), 1,100 clones deep: every term is there.
+func c20DeepChain(r *mon.Run) {
+	c := mon.Case{Gen: "deep-chain", Seed: r.Seed}
+	const depth = 1100
+	s := jen.Lit(0)
+	for i := 1; i <= depth; i++ {
+		s = s.Clone().Op("+").Lit(i)
+	}
+	last := s.Clone()
+	out, fail := rawOf(jen.Var().Id("sum").Op("=").Add(last))
+	if fail != "" {
+		r.Violate("clone-render-failure", c, "a chain of %d clones of clones does not render: %s", depth, mon.Trunc(fail, 300))
+	} else {
+		toks := tokenise([]byte(out))
+		n, okSeq := 0, true
+		for _, t := range toks {
+			if v, err := strconv.Atoi(t); err == nil {
+				if v != n {
+					okSeq = false
+				}
+				n++
+			}
+		}
+		if !okSeq || n != depth+1 {
+			r.Violate("clone-corruption", c, "a sum built through %d nested clones renders %d of its %d terms (in order: %v): %s …", depth, n, depth+1, okSeq, mon.Trunc(out, 200))
+		}
+	}
+	r.Eval("deep-chain", true)
+	r.Count("deep_chain_depth", depth)
+}
+
 func runC20(r *mon.Run) {
 	r.SetRule(fmt.Sprintf("%d fixed non-expression originals (case/default clauses followed by Block, select cases, if/else, for, whole switches, struct fields with tags, Dict values, generics, comments, Defs, Custom, Null/Empty) whose unmodified clone, clone of clone, clone taken after a render and clone rendered twice must render byte-identically to the original in the same context, formatted and NoFormat, and whose rendering must survive an append to a clone; then ", len(c20Shapes))+"random histories: 3-8 handles forming a tree by Clone() (one history in twelve: a chain of 35-76 clones of clones; a third of the clones are taken inside a Do callback), 10-60 steps appending 2-8 tokens with unique names (Dot, Op+Id, Add(k), Call, Index, chains — always a valid expression continuation, so handles can be rendered with Render itself) to a random handle, so that clone points with and without spare slice capacity both occur; after every step every handle is rendered with Render and inside a NoFormat File, and tokenised; offline checker against a list model admitting live and snapshot views of the original. non-trivial = history with >=1 clone; distinct by operation sequence")
 	r.Assume("a clone that has been appended to may show its original as it was at clone time or as it is now (both admitted: the statement promises isolation of originals and survival of clone tokens); an unmodified clone must render exactly like its original at every step, as the statement says")
 	c20NegControls(r)
 	c20ShapeCases(r)
 	c20CaseHeaders(r)
+	c20DeepChain(r)
 	n := r.Pick(2500, 30000)
 	mon.Parallel(n, func(i int) { c20Case(r, int64(i)) })
 }
@@ -619,6 +656,10 @@ func replayC20(r *mon.Run, c mon.Case) {
 	}
 	if c.Gen == "case-header" {
 		c20CaseHeaders(r)
+		return
+	}
+	if c.Gen == "deep-chain" {
+		c20DeepChain(r)
 		return
 	}
 	c20Case(r, c.Index)
